@@ -42,6 +42,15 @@ func (l *streamLog) add(ts time.Time, sequenceNumber uint16, ecn uint8) {
 	if unwrappedSequenceNumber < l.nextSequenceNumberToReport {
 		return
 	}
+	if report, ok := l.log[unwrappedSequenceNumber]; ok {
+		// Duplicate: RFC 8888 section 3.1 requires the arrival time (and ECN mark) of the first copy,
+		// except that an ECN-CE mark on any copy is reported.
+		if rtcp.ECN(ecn) == rtcp.ECNCE {
+			report.ecn = ecn
+		}
+
+		return
+	}
 	l.log[unwrappedSequenceNumber] = &packetReport{
 		arrivalTime: ts,
 		ecn:         ecn,
